@@ -14,6 +14,7 @@ Everything that the later passes need from the tables is a lookup; the lookups a
 import CassisModel.Proofs.RoundTripDefs
 import CassisModel.Proofs.RoundTripBuildA
 import CassisModel.Proofs.XmiLoad
+import CassisModel.Proofs.XmiLoad2
 
 namespace Cassis.Xmi.LP
 open Cassis.TS Cassis.Traverse Cassis.Lex Cassis.Xmi
@@ -61,12 +62,20 @@ theorem find?_perm_unique {α} (p : α → Bool) {l l' : List α} (h : l.Perm l'
     rw [ih1 hu]
     exact ih2 (fun a ha b hb => hu a (h1.mem_iff.mpr ha) b (h1.mem_iff.mpr hb))
 
+theorem nodup_map_inj {α κ} (key : α → κ) : ∀ {l : List α}, (l.map key).Nodup → ∀ a ∈ l, ∀ b ∈ l, key a = key b → a = b
+  | [], _, a, ha, _, _, _ => by cases ha
+  | x :: l, hn, a, ha, b, hb, hab => by
+    rw [List.map_cons, List.nodup_cons] at hn
+    rcases List.mem_cons.mp ha with rfl | ha' <;> rcases List.mem_cons.mp hb with rfl | hb'
+    · rfl
+    · exact absurd (hab ▸ List.mem_map_of_mem hb') hn.1
+    · exact absurd (hab ▸ List.mem_map_of_mem ha') hn.1
+    · exact nodup_map_inj key hn.2 a ha' b hb' hab
+
 /-- `find?` by a key that is pairwise distinct -/
 theorem find?_perm_key {α κ} [DecidableEq κ] (key : α → κ) {l l' : List α} (h : l.Perm l') (hn : (l'.map key).Nodup)
     (x : α) (hx : x ∈ l') : l.find? (fun a => key a == key x) = some x := by
-  have hu : ∀ a ∈ l', ∀ b ∈ l', key a = key b → a = b := by
-    intro a ha b hb hab
-    exact (List.inj_on_of_nodup_map hn) ha hb hab
+  have hu : ∀ a ∈ l', ∀ b ∈ l', key a = key b → a = b := nodup_map_inj key hn
   rw [find?_perm_unique _ h (fun a ha b hb pa pb => by
     have ha' := h.mem_iff.mp ha
     have hb' := h.mem_iff.mp hb
@@ -148,7 +157,6 @@ theorem P1SpecP.lookup (h : P1SpecP ts cass c H L na n0 p) (hL : LOk K ts c ci H
     simpa using fun e : (0 : Int) = q.1 => this e.symm
   simp only [h0]
   have := RTB.find?_map_key (fun q : Int × Nat => q.1) (fun q => na q.1) L q hq hL.nodup
-  simp only at this
   rw [this]
 
 /-- the sofa record with a given xmi:id (second pass: the `sofa` attribute of a structure) -/
